@@ -11,6 +11,20 @@ CHECKS = {
   text="Solver verdict over every u128 (round-trip, canonical form) and every byte buffer of length 0..=20 (decode vs. a statement-derived oracle). decode never looks past index 19, so 20 bytes is the whole input space it can distinguish. This is the right level because the varint bugs live at group/overflow boundaries that sampling misses and the domain is small enough for a complete bounded verdict.",
   design_ref="DESIGN.md §3 C26",
   note="Trusts rustc MIR -> Kani goto translation, CBMC and CaDiCaL; Vec/allocator are Kani's models; dev-profile semantics (overflow checks on). Buffers longer than 20 bytes are outside the encoded bound (argued, not solved: decode returns at or before index 19)."),
+ "C35": dict(
+  engine="E1b-kani-lift",
+  technique="bounded model checking (Kani/CBMC) of the real src/index/entry.rs and src/index/utxo_entry.rs bodies lifted under a shim parent module; symbolic field values, concrete element counts; Kani concrete playback for counterexamples",
+  category="model_checking",
+  text="Solver verdict for store/load identity of every entry codec over its whole value domain (SatRange in the statement's domain and in the full 51+33-bit packing, OutPoint, SatPoint, InscriptionId, Txid, RuneId, Rune, RuneEntry, InscriptionEntry with <= 2 parents, Header), for UtxoEntry build->parse across index-flag combinations with concrete element counts and symbolic contents, and for merged() keeping both sides. Bugs here sit at bit-packing edges (2^50, 2^51, 33-bit deltas) no sampled test reaches.",
+  design_ref="DESIGN.md §3 C35",
+  note="Shim parent modules supply names only (validated by running the repo's unit tests through the shim each run). UtxoEntry harnesses: <= 2 ranges, <= 3 script bytes, <= 1 inscription with offset < 2^7 (quick) / 2^14 (thorough); entries with 2+ inscriptions, wide inscription offsets combined with other parts, and rune-balance lists are outside the decided bound (CBMC runs out of memory there). redb is trusted to return stored bytes."),
+ "C10": dict(
+  engine="E1b-kani-lift",
+  technique="bounded model checking (Kani/CBMC) of the real RuneEntry::mintable/start/end against an exact-arithmetic reference written from the statement; all Terms option patterns and values symbolic",
+  category="model_checking",
+  text="Complete solver verdict for the mint-terms predicate: for every Terms value, etching block, mint count and height <= u32::MAX, mintable() succeeds exactly when the statement's window/cap conditions hold and returns the amount; start()/end() are the later/earlier of absolute and saturating relative bounds. Only this predicate is decided - the counter update and cenotaph/unetched-rune clauses in RuneUpdater::mint are out of reach and stated as uncovered.",
+  design_ref="DESIGN.md §3 C10",
+  note="heights <= u32::MAX (ord's Height type); shim parent as for C35; RuneUpdater::mint / index_runes are NOT covered (HashMap + redb tables)."),
 }
 
 NOT_APPLICABLE = {
